@@ -1,10 +1,12 @@
 (* Verdict functions and decidable trace predicates evaluated by the generated case files (engine rt).
    Each C0n_ok is evaluated on the IMPLEMENTATION's trace; Proofs files show it holds of the model's. *)
 From Coq Require Import List Arith Bool NArith.
-From Crux Require Import Rt.Lang Rt.Rt Rt.Host.
+From Crux Require Import Rt.Lang Rt.Rt Rt.Host Rt.Legacy.
 Import ListNotations.
 
-(* (under_core?, drained?, command, handlers, schedule, implementation trace) *)
+(* (under a Core?, drained?, command, handlers, schedule, implementation trace); a case of the legacy
+   capability API carries its handler table separately (lcase below) and is folded into an rtcase with
+   an empty command-API table so that the Core predicates C01_ok / C03_ok apply to it unchanged *)
 Definition rtcase := (bool * bool * cmd * handlers * list action * list obs)%type.
 
 Definition model_trace (c : rtcase) : option (list obs) :=
@@ -198,3 +200,18 @@ Definition C04_ok (c : rtcase) : bool :=
   end.
 Definition verdicts_C04 (cs : list rtcase) : list N := map (verdict_with C04_ok) cs.
 Definition fragment_flags (cs : list rtcase) : list N := map (fun c => if in_fragment c then 1%N else 0%N) cs.
+
+(* ---------- cases of the legacy capability API host ---------- *)
+Definition lcase := (lhandlers * list action * list obs)%type.
+Definition as_rtcase (c : lcase) : rtcase := match c with (_, acts, t) => (true, false, c_done, [], acts, t) end.
+Definition verdict_legacy (ok : rtcase -> bool) (c : lcase) : N :=
+  match c with (hs, acts, impl) =>
+    if negb (ok (as_rtcase c)) then 2%N else
+    match under_legacy_core hs acts with
+    | None => 3%N
+    | Some t => if list_eqb obs_eqb t impl then 0%N else 1%N
+    end
+  end.
+Definition verdicts_legacy_C01 (cs : list lcase) : list N := map (verdict_legacy C01_ok) cs.
+Definition verdicts_legacy_C03 (cs : list lcase) : list N := map (verdict_legacy C03_ok) cs.
+Definition verdicts_legacy_any (cs : list lcase) : list N := map (verdict_legacy (fun c => match c with (_, _, _, _, _, t) => no_panic t end)) cs.
